@@ -12,6 +12,7 @@ import (
 	_ "verif/checks/c10"
 	_ "verif/checks/c14"
 	_ "verif/checks/c17"
+	_ "verif/checks/c18"
 	_ "verif/checks/c19"
 	"verif/internal/ev"
 )
